@@ -480,4 +480,118 @@ def genPopOne (B : Backends) : M (Unit) := do
        unset_states(state_params, env)
 -/
 
+/-- `_state_check_chain("get", env, params_obj_type, params_obj_name, state_params)` of avocado_i2n/states/setup.py (the parameter `do` specialised by the front end) -/
+def genChainGet (B : Backends) (params_obj_type : String) (params_obj_name : String) : M (Bool) := do
+  setP "check_state" (← rd (fun sp => sp.getD "get_state" ""))
+  if (← rd (truthyP "get_location")) then
+    setP "show_location" (← rd (fun sp => sp.getD "get_location" ""))
+  if ("get" == "set") then
+    setP "check_opts" "soft_boot=yes"
+    setP "soft_boot" "yes"
+  else
+    setP "check_opts" "soft_boot=no"
+    setP "soft_boot" "no"
+  let mut composite_types : List String := (pySplitChar '/' params_obj_type)
+  let mut composite_names : List String := (pySplitChar '/' params_obj_name)
+  zipSetM composite_types composite_names
+  setP "states_chain" (composite_types.getLast?.getD "")
+  let mut state_exists : Bool := (← checkStatesM B)
+  return state_exists
+
+/- the Python it was generated from (comments and docstring dropped):
+   def _state_check_chain(env, params_obj_type, params_obj_name, state_params):
+       state_params.__setitem__('check_state', state_params['get_state'])
+       if state_params.get('get_location'):
+           state_params.__setitem__('show_location', state_params['get_location'])
+       if 'get' == 'set':
+           state_params.__setitem__('check_opts', 'soft_boot=yes')
+           state_params.__setitem__('soft_boot', 'yes')
+       else:
+           state_params.__setitem__('check_opts', 'soft_boot=no')
+           state_params.__setitem__('soft_boot', 'no')
+       composite_types = params_obj_type.split('/')
+       composite_names = params_obj_name.split('/')
+       for composite_type, composite_name in zip(composite_types, composite_names):
+           state_params[composite_type] = composite_name
+       state_params.__setitem__('states_chain', composite_types[-1])
+       state_exists = check_states(state_params, env)
+       return state_exists
+-/
+
+/-- `_state_check_chain("set", env, params_obj_type, params_obj_name, state_params)` of avocado_i2n/states/setup.py (the parameter `do` specialised by the front end) -/
+def genChainSet (B : Backends) (params_obj_type : String) (params_obj_name : String) : M (Bool) := do
+  setP "check_state" (← rd (fun sp => sp.getD "set_state" ""))
+  if (← rd (truthyP "set_location")) then
+    setP "show_location" (← rd (fun sp => sp.getD "set_location" ""))
+  if ("set" == "set") then
+    setP "check_opts" "soft_boot=yes"
+    setP "soft_boot" "yes"
+  else
+    setP "check_opts" "soft_boot=no"
+    setP "soft_boot" "no"
+  let mut composite_types : List String := (pySplitChar '/' params_obj_type)
+  let mut composite_names : List String := (pySplitChar '/' params_obj_name)
+  zipSetM composite_types composite_names
+  setP "states_chain" (composite_types.getLast?.getD "")
+  let mut state_exists : Bool := (← checkStatesM B)
+  return state_exists
+
+/- the Python it was generated from (comments and docstring dropped):
+   def _state_check_chain(env, params_obj_type, params_obj_name, state_params):
+       state_params.__setitem__('check_state', state_params['set_state'])
+       if state_params.get('set_location'):
+           state_params.__setitem__('show_location', state_params['set_location'])
+       if 'set' == 'set':
+           state_params.__setitem__('check_opts', 'soft_boot=yes')
+           state_params.__setitem__('soft_boot', 'yes')
+       else:
+           state_params.__setitem__('check_opts', 'soft_boot=no')
+           state_params.__setitem__('soft_boot', 'no')
+       composite_types = params_obj_type.split('/')
+       composite_names = params_obj_name.split('/')
+       for composite_type, composite_name in zip(composite_types, composite_names):
+           state_params[composite_type] = composite_name
+       state_params.__setitem__('states_chain', composite_types[-1])
+       state_exists = check_states(state_params, env)
+       return state_exists
+-/
+
+/-- `_state_check_chain("unset", env, params_obj_type, params_obj_name, state_params)` of avocado_i2n/states/setup.py (the parameter `do` specialised by the front end) -/
+def genChainUnset (B : Backends) (params_obj_type : String) (params_obj_name : String) : M (Bool) := do
+  setP "check_state" (← rd (fun sp => sp.getD "unset_state" ""))
+  if (← rd (truthyP "unset_location")) then
+    setP "show_location" (← rd (fun sp => sp.getD "unset_location" ""))
+  if ("unset" == "set") then
+    setP "check_opts" "soft_boot=yes"
+    setP "soft_boot" "yes"
+  else
+    setP "check_opts" "soft_boot=no"
+    setP "soft_boot" "no"
+  let mut composite_types : List String := (pySplitChar '/' params_obj_type)
+  let mut composite_names : List String := (pySplitChar '/' params_obj_name)
+  zipSetM composite_types composite_names
+  setP "states_chain" (composite_types.getLast?.getD "")
+  let mut state_exists : Bool := (← checkStatesM B)
+  return state_exists
+
+/- the Python it was generated from (comments and docstring dropped):
+   def _state_check_chain(env, params_obj_type, params_obj_name, state_params):
+       state_params.__setitem__('check_state', state_params['unset_state'])
+       if state_params.get('unset_location'):
+           state_params.__setitem__('show_location', state_params['unset_location'])
+       if 'unset' == 'set':
+           state_params.__setitem__('check_opts', 'soft_boot=yes')
+           state_params.__setitem__('soft_boot', 'yes')
+       else:
+           state_params.__setitem__('check_opts', 'soft_boot=no')
+           state_params.__setitem__('soft_boot', 'no')
+       composite_types = params_obj_type.split('/')
+       composite_names = params_obj_name.split('/')
+       for composite_type, composite_name in zip(composite_types, composite_names):
+           state_params[composite_type] = composite_name
+       state_params.__setitem__('states_chain', composite_types[-1])
+       state_exists = check_states(state_params, env)
+       return state_exists
+-/
+
 end I2N.Extracted.GenPolicy
